@@ -538,7 +538,16 @@ def run_property(mod, tier, seed, replay=None):
         if not ok_t:
             broken.append(("gotrans", out_t[-1500:]))
         target = "theories/Properties/%s.vo" % pid
-        ok_b, out_b = coq_make([target])
+        # the model expressions may import modules outside the closure of the property file:
+        # build those too, so that a regenerated Gen/ file never leaves a stale .vo behind
+        extra_targets = []
+        for s_ in getattr(mod, "SUITES", []):
+            for imp in re.findall(r"Require\s+(?:Import|Export)\s+([^.]*(?:\.[A-Za-z0-9_']+)*)\s*\.", getattr(s_, "coq_imports", "") or ""):
+                for name in imp.split():
+                    t = "theories/" + name.replace(".", "/") + ".vo"
+                    if os.path.exists(os.path.join(COQ, t[:-1])) and t not in extra_targets:
+                        extra_targets.append(t)
+        ok_b, out_b = coq_make([target] + extra_targets)
         model_ok = True
         if not ok_b:
             err = "\n".join(l for l in out_b.splitlines() if not l.startswith("COQ"))[-2500:]
